@@ -1,6 +1,7 @@
 """C09 — the reported critical path is a maximum-weight path of the graph."""
 from __future__ import annotations
 
+import os
 from typing import Any, Dict, List
 
 from harness import gen as G
@@ -21,6 +22,7 @@ ASSUMPTIONS = [
 def gen(rng, tier, no, wide=False):
     case = CP.gen_cp_case(rng)
     case["params"]["reweight"] = [[rng.random(), rng.choice([0, 1, 5, 50, 500])] for _ in range(rng.choice([0, 1, 2, 3, 5]))]
+    case["params"]["copy"] = rng.random() < 0.5
     return case
 
 
@@ -64,6 +66,18 @@ def observe(case):
                     s["weights_changed_by_recompute"] = [[int(u), int(v), C.num(intended[(u, v)]), C.num(g.edges[u, v]["weight"])]
                                                          for u, v in g.edges if C.num(g.edges[u, v]["weight"]) != C.num(intended[(u, v)])][:5]
                     canon["rounds"].append(s)
+                    if case["params"].get("copy") and ok2:
+                        # a copy of the re-weighted graph (saved and restored): its reported path must be a maximum-weight
+                        # path of the copy's own weights
+                        from hta.analyzers.critical_path_analysis import restore_cpgraph
+                        out_dir = os.path.join(os.path.dirname(next(iter(files.values()))), "c09_copy")
+                        try:
+                            cp = restore_cpgraph(g.save(out_dir), ta.t, case["params"]["rank"])
+                            sc = _snap(cp)
+                            sc["ok"], sc["copy"] = True, True
+                            canon["rounds"].append(sc)
+                        except Exception as e2:  # noqa: BLE001
+                            canon["rounds"].append({"raises": "copy: " + C.exc_name(e2) + ": " + str(e2)[:80], "degenerate_all_zero": False})
                 except Exception as e:  # noqa: BLE001
                     # a what-if that leaves no positive-weight edge has no critical path to speak of (every path,
                     # including a single node, weighs 0): the tool's assertion "at least two path nodes" fires.
@@ -96,7 +110,7 @@ def compare(obs, mod) -> List[str]:
 def spec_check(drv, case, obs) -> List[str]:
     out = []
     for i, r in enumerate(obs["canon"]["rounds"]):
-        tag = "original graph" if i == 0 else "re-weighted graph"
+        tag = "original graph" if i == 0 else ("restored copy of the re-weighted graph" if r.get("copy") or str(r.get("raises", "")).startswith("copy:") else "re-weighted graph")
         if "raises" in r:
             if not (i > 0 and r.get("degenerate_all_zero") and r["raises"].startswith("AssertionError")):
                 out.append(f"{tag}: critical_path() {r['raises']}")
